@@ -9,11 +9,12 @@ EXTENDS KnownFindings, Json
 
 CONSTANTS MaxDepth,     \* number of calls
           UsePrefixes,     \* prefixes used by the calls ("" = default namespace)
-          Emit          \* TRUE: print one TR line per explored transition
+          Emit,         \* "all": print one TR line per explored transition; "walk": final steps of walks
+          WalkLen       \* length of a finished walk (simulation)
 
 VARIABLES ms, hist
 vars == <<ms, hist>>
-View == ms
+View == <<ms, Len(hist)>>
 
 A  == <<"a">>
 AB == <<"a", "b">>
@@ -26,14 +27,14 @@ StrForms == {StrPL(p, l) : p \in UsePrefixes \ {""}, l \in Locals}
             \cup {StrBare(l) : l \in Locals}
             \cup {StrUri(u \o <<"x">>) : u \in NsURIs}
 
-Init == /\ ms = [mgr |-> ("doc" :> MgrInit("")) @@ ("bun" :> MgrInit("doc")), handed |-> {}]
+Init == /\ ms = InitMs("docbun")
         /\ hist = <<>>
 
 ActsAddNs      == {[op |-> "AddNs", h |-> h, p |-> p, u |-> u] :
                      h \in Scopes, p \in UsePrefixes \ {""}, u \in NsURIs}
 (* usage discipline of the property: a default is never re-bound to another URI *)
 ActsSetDefault == {[op |-> "SetDefault", h |-> h, u |-> u] : h \in Scopes, u \in NsURIs}
-DisciplineOK(a) == ms.mgr[a.h].dflt \in {NONE, a.u}
+DisciplineOK(a) == ms.mgr[MgrOf(ms, a.h)].dflt \in {NONE, a.u}
 ActsResQN      == {[op |-> "ResQN", h |-> h, p |-> p, ns |-> u, l |-> l] :
                      h \in Scopes, p \in UsePrefixes, u \in NsURIs, l \in Locals}
 ActsResStr     == {[op |-> "ResStr", h |-> h, str |-> s] : h \in Scopes, s \in StrForms}
@@ -41,15 +42,20 @@ ActsResStr     == {[op |-> "ResStr", h |-> h, str |-> s] : h \in Scopes, s \in S
 Step(a) == /\ Len(hist) < MaxDepth
            /\ ms' = ApplyF(ms, a).st
            /\ hist' = Append(hist, a)
-           /\ IF Emit THEN PrintT("TR " \o ToJson(hist')) ELSE TRUE
+           /\ IF Emit = "all" \/ (Emit = "walk" /\ Len(hist') = WalkLen)
+              THEN PrintT("TR " \o ToJson(hist')) ELSE TRUE
 
 AddNs      == \E a \in ActsAddNs : Step(a)
 SetDefault == \E a \in ActsSetDefault : DisciplineOK(a) /\ Step(a)
 ResQN      == \E a \in ActsResQN : Step(a)
-ResStr     == \E a \in ActsResStr : ResolveStrF(ms.mgr, a.h, a.str).ok /\ Step(a)
+ResStr     == \E a \in ActsResStr : ResolveStrF(ms.mgr, MgrOf(ms, a.h), a.str).ok /\ Step(a)
 
 Next == AddNs \/ SetDefault \/ ResQN \/ ResStr
 Spec == Init /\ [][Next]_vars
+
+(* Emit = "walk" (simulation mode): TLC evaluates the action for every candidate  *)
+(* successor of a visited state, so the final step of each random walk prints all *)
+(* its alternatives; the harness keeps one per walk.                              *)
 
 (* The observed step the model itself would log for the transition just taken *)
 Obs == LET a == hist'[Len(hist')]
